@@ -44,3 +44,11 @@ claim("C15", "property-based testing with validity predicates over the raw dump 
       "vlib/canonical_ref.py with the same events as the library's parse (and the input events).",
       "Trusted: vlib/canonical_ref.py (written from the canonical grammar, shares nothing with the library or tests/canonical.py), the pure-Python scanner for token kinds/columns used by "
       "the directive and indentation predicates (its positions are checked independently by C09). One libyaml known finding excluded by a case predicate.")
+claim("C01", "grammar-based generation of hostile tagged documents with effect monitors (audit hook, profile hook, sys.modules diff, canary objects) and a static table check (Hypothesis)",
+      "Generated search: abstract documents whose tag slots are drawn from every python/* tag form x a catalogue of dangerous and canary names x every tag registered anywhere in the "
+      "library, at root/item/value/key/set/omap/pairs/merge/'=' positions with anchors and aliases, delivered as str and bytes to safe_load(_all), SafeLoader, CSafeLoader, BaseLoader, "
+      "CBaseLoader in one process (so state leaking between loader classes is exercised). Oracle: YAMLError or a result of the allowed exact types; no import/exec/open/os.system audit "
+      "event, no new module, no Python call outside lib/yaml + stdlib, no call of a named object, no canary record; a non-core tag at a dispatched position must give ConstructorError; "
+      "the effective constructor tables are exactly the 12 core tags + None.",
+      "Trusted: the position classification of vlib/safety.py (which nodes the constructor dispatches on), sys.setprofile/sys.addaudithook. One known finding (non-core tags on "
+      "structurally consumed nodes are ignored, not rejected) is excluded by the position predicate.")
